@@ -131,6 +131,15 @@ UcbUnseenFirst == lrn.k = "ucb" => \A acts \in ActSets : \A o \in PredictObs(act
 (* Random / Fixed never learn anything; predict never changes what was learnt *)
 NoLearnEffect == [][(lrn.k \in {"random", "fixed"} => stat' = stat) /\ (inst' # inst => stat' = stat)]_mvars
 
+(* Corral's p_bar (corral.py:108) in exact rationals: mixing a strictly positive distribution k/10 with the uniform one
+   with weight 1/T gives a strictly positive distribution again, so IsDist(ps) and MixOK together describe p_bar *)
+RECURSIVE FSum(_, _)
+FSum(f, i) == IF i = 0 THEN 0 ELSE f[i] + FSum(f, i - 1)
+MixKeepsDist == \A M \in 2..4, T \in {2, 10, 100} : \A k \in [1..M -> 1..(11 - M)] : FSum(k, M) = 10 =>
+                  LET num == [i \in 1..M |-> (T - 1) * M * k[i] + 10] IN             \* p_bar[i] = num[i] / (10 T M)
+                  (\A i \in 1..M : num[i] > 0) /\ FSum(num, M) = 10 * T * M
+ASSUME MixKeepsDist
+
 (* --------------------------- trace validation --------------------------- *)
 Traces == JsonDeserialize(IOEnv.TRACE_FILE)
 Evs == Traces[tid].ev
